@@ -425,7 +425,10 @@ def run_exchange(ctx, rng, fe, ops, script, jitter=False):
 
 
 ROUTE_POOL = [[C(b'r'), C(b'one')], [C(b'r'), C(b'two')], [C(b's')], [C(b's'), C(b'cmd')], [C(b's'), C(b'cmd'), C(b'run')], [C(b'sx')],
-              [C(b'r')], [C(b't'), C(b'a'), C(b'b')], [C(b't'), C(b'a')]]
+              [C(b'r')], [C(b't'), C(b'a'), C(b'b')], [C(b't'), C(b'a')],
+              # typed-number components whose number is written wider than necessary (a fixed-width version / segment): the URI
+              # rendering of such a name is another name, the prefix declared is the octets given
+              [C(b'w'), rc.comp(0x36, b'\x00\x00\x00\x05')], [C(b'w'), rc.comp(0x32, b'\x00\x07'), C(b'x')]]
 
 
 def check_routes(ctx, rng, fe, variant=0):
